@@ -188,3 +188,13 @@ Proof. exact f_ex_layout_refs. Qed.
 Theorem C12_generated_facts_present : GEN_CONST_OK = true /\ GEN_DOCS_OK = true.
 Proof. split; reflexivity. Qed.
 Print Assumptions C12_generated_facts_present.
+
+(* ====================================================================================== *)
+(* Glue (theories/Glue/GluePreSer.v): the (parent id, node) enumeration the writer walks is the row list
+   of the mutation machine (Mut/SurgeryFacts.v [rows]): same order, same parent component. *)
+From NT Require SurgeryFacts GluePreSer.
+
+Theorem C12_preorder_is_the_machines_rows : forall f o,
+  map GluePreSer.par_row (flat_map (pre_par o) f) = SurgeryFacts.rows o f.
+Proof. exact GluePreSer.pre_par_rows. Qed.
+Print Assumptions C12_preorder_is_the_machines_rows.
